@@ -1428,6 +1428,26 @@ where
         }
     }
 
+    // `attr=<el/>` is the same as `attr={<el/>}`; handle both through the second form
+    fn visit_mut_jsx_attr(&mut self, jsx_attr: &mut JSXAttr) {
+        match jsx_attr.value.take() {
+            Some(JSXAttrValue::JSXElement(element)) => {
+                jsx_attr.value = Some(JSXAttrValue::JSXExprContainer(JSXExprContainer {
+                    span: element.span,
+                    expr: JSXExpr::Expr(Box::new(Expr::JSXElement(element))),
+                }));
+            }
+            Some(JSXAttrValue::JSXFragment(fragment)) => {
+                jsx_attr.value = Some(JSXAttrValue::JSXExprContainer(JSXExprContainer {
+                    span: fragment.span,
+                    expr: JSXExpr::Expr(Box::new(Expr::JSXFragment(fragment))),
+                }));
+            }
+            value => jsx_attr.value = value,
+        }
+        jsx_attr.visit_mut_children_with(self);
+    }
+
     // decouple `v-models`
     fn visit_mut_jsx_opening_element(&mut self, jsx_opening_element: &mut JSXOpeningElement) {
         jsx_opening_element.visit_mut_children_with(self);
